@@ -1,6 +1,7 @@
 from __future__ import annotations
 
 from collections import defaultdict
+import dataclasses
 from dataclasses import dataclass, field
 from functools import partial
 import hashlib
@@ -180,8 +181,17 @@ class ProcessingItemBase:
 
         if self.transformation is not None:
             content.append(str(type(self.transformation).__name__))
-            transformation_dict = getattr(self.transformation, "__dict__", {})
-            content.append(str(sorted(transformation_dict.items())))
+            if dataclasses.is_dataclass(self.transformation):
+                # what makes two transformations equal: fields that are excluded from comparison
+                # (back references, names drawn at random) don't identify a transformation.
+                transformation_items = [
+                    (f.name, getattr(self.transformation, f.name, None))
+                    for f in dataclasses.fields(self.transformation)
+                    if f.compare
+                ]
+            else:
+                transformation_items = list(getattr(self.transformation, "__dict__", {}).items())
+            content.append(str(sorted(transformation_items, key=lambda item: item[0])))
 
         if hasattr(self, "rule_conditions") and self.rule_conditions:
             try:
